@@ -108,11 +108,60 @@ Definition run_serve (args : list bytes) : bytes :=
   | _ => ERR_BADCASE
   end.
 
+(* ---------------- a legacy request and its versioned twin (C14_legacy_twin / C14_legacy_twin_over_limit) ----------------
+   brokerhttp twinpair <hdrs k:v,...|-> <legacy body payload> <twin body payload> <ipc ok|bad|internal|other> <resp x> <dec none|xA:xE>
+     -> lstatus=<n> lbody=x<hex> lipc=<n> tstatus=<n> tbody=x<hex> tipc=<n> over=<0|1>
+   Executes [serve_req] on the legacy request q (POST /client, these header lines, this body) and on q' (POST /client, no
+   NAT header, body = enc offer (header_get hdrs NAT_HEADER)) exactly as the two theorems relate them, with the encoder
+   the constant function returning the supplied twin body (what EncodeClientPollRequest produced for this very request,
+   observed on the Go side), so that the size hypothesis of the theorems is the real one. The state counts IPC calls:
+   lipc / tipc = calls made by the legacy request / by the twin. over = READ_LIMIT_N < length of the twin. *)
+Definition side_print (tag : bytes) (o : outc resp) (n : N) : bytes :=
+  match o with
+  | Panicked => tag ++ bs "status=panic " ++ tag ++ bs "body=x " ++ tag ++ bs "ipc=" ++ dec_print n
+  | Ret r => tag ++ bs "status=" ++ dec_print (p_status r) ++ [32] ++ tag ++ bs "body=x" ++ hex_encode (p_body r)
+             ++ [32] ++ tag ++ bs "ipc=" ++ dec_print n
+  end.
+
+Definition run_twinpair (args : list bytes) : bytes :=
+  match args with
+  | [hdrs; body; twin; ipc; resp; dec] =>
+      match list_parse kv_parse hdrs, payload_parse body, payload_parse twin, payload_parse resp with
+      | Some hdrs, Some body, Some twin, Some response =>
+          let ipcv := if beq ipc (bs "ok") then IpcOk response
+                      else if beq ipc (bs "bad") then IpcBadRequest
+                      else if beq ipc (bs "internal") then IpcInternal else IpcOtherErr in
+          let decoded : option cpresp :=
+            if beq dec (bs "none") then None
+            else match split_on COLON dec with
+                 | [a; e] => match payload_parse a, payload_parse e with
+                             | Some a', Some e' => Some {| r_answer := a'; r_error := e' |}
+                             | _, _ => None
+                             end
+                 | _ => None
+                 end in
+          let enc := fun (_ _ : bytes) => twin in
+          let view := fun _ : N => {| v_snowflakes := []; v_metrics := None; v_prom := [] |} in
+          let ipcf := fun (s : N) (_ : bytes) => (ipcv, s + 1) in
+          let srv := serve_req N view enc (fun _ => decoded) (fun e => e) amp_dec_real (fun b => b) ipcf ipcf ipcf H1 0 in
+          let q := {| q_method := bs "POST"; q_path := bs "/client"; q_hdrs := hdrs; q_sent := body |} in
+          let q' := {| q_method := bs "POST"; q_path := bs "/client"; q_hdrs := [];
+                       q_sent := enc body (header_get hdrs NAT_HEADER) |} in
+          let (o, s1) := srv q in
+          let (o', s2) := srv q' in
+          side_print (bs "l") o s1 ++ [32] ++ side_print (bs "t") o' s2 ++ bs " over="
+          ++ bool_print (READ_LIMIT_N <? N.of_nat (List.length twin))
+      | _, _, _, _ => ERR_BADCASE
+      end
+  | _ => ERR_BADCASE
+  end.
+
 Definition run (args : list bytes) : bytes :=
   match args with
   | op :: rest =>
       if beq op (bs "predict") then run_predict args
       else if beq op (bs "serve") then run_serve rest
+      else if beq op (bs "twinpair") then run_twinpair rest
       else if beq op (bs "debugview") then
         match rest with
         | [snow] => match list_parse kv_parse snow with Some sf => 120 :: hex_encode (debug_body sf) | None => ERR_BADCASE end
